@@ -16,7 +16,7 @@ trap restore EXIT
 demo_clean="n/a"; demo_mut="n/a"
 if [ -n "$DEMO" ]; then
   cp $DEMO /repo/zz_demo_test.go
-  if go test -vet=off -count=1 -run 'Demo' . >/tmp/demo_clean.log 2>&1; then demo_clean=pass; else demo_clean=FAIL; fi
+  if go test -vet=off -count=1 -run 'Demo|Seeded' . >/tmp/demo_clean.log 2>&1; then demo_clean=pass; else demo_clean=FAIL; fi
   rm -f /repo/zz_demo_test.go
 fi
 git apply $PATCH || { echo "patch does not apply"; exit 2; }
@@ -24,7 +24,7 @@ if go build ./... 2>/tmp/mut_build.log; then build=ok; else build=FAIL; fi
 if go test -vet=off -count=1 -timeout 25m ./... >/tmp/mut_suite.log 2>&1; then suite=pass; else suite=FAIL; fi
 if [ -n "$DEMO" ]; then
   cp $DEMO /repo/zz_demo_test.go
-  if go test -vet=off -count=1 -run 'Demo' . >/tmp/demo_mut.log 2>&1; then demo_mut=pass; else demo_mut=FAIL; fi
+  if go test -vet=off -count=1 -run 'Demo|Seeded' . >/tmp/demo_mut.log 2>&1; then demo_mut=pass; else demo_mut=FAIL; fi
   rm -f /repo/zz_demo_test.go
 fi
 results=""
